@@ -37,7 +37,34 @@ def _tls(job):
     elif not ev:
         return dict(ver=ver, code=code, bad=[], nokeys=True, name=c.suite.name)
     else:
-        k = ev[-1]["keys"]
+        bad = compare_slots(c, ver, shape, ev[-1]["keys"])
+    return dict(ver=ver, code=code, bad=bad, name=c.suite.name, nokeys=False)
+
+
+def _tls_multi(job):
+    """several connections in ONE capture (one run): the keys installed for each must be its own RFC keys, whatever the others were"""
+    descs = job
+    cds = [dict(ver=ver, suite=code, seed=seed, shape=shape, app=[["c", 20], ["s", 30]], flow=dict(idx=i)) for i, (ver, code, seed, shape) in enumerate(descs)]
+    try:
+        cap, conns, flows, res, obs, o = run_tls(dict(conns=cds), trace=True)
+    except Exception:
+        import traceback
+        return dict(machinery=traceback.format_exc()[-1500:])
+    bad = []
+    if res.crashed:
+        return dict(bad=["run aborted: " + res.exc.strip().splitlines()[-1]], descs=descs, n=0)
+    n = 0
+    for c, (ver, code, seed, shape) in zip(conns, descs):
+        ev = [e for e in res.events if e["ev"] == "keys" and e.get("proto") == "tls" and e.get("cr") == c.cr.hex()]
+        if ev:
+            n += 1
+            bad += [f"connection {R.VNAME[ver]} {c.suite.name} (one of {len(descs)} in the capture): {b}" for b in compare_slots(c, ver, shape, ev[-1]["keys"])]
+    return dict(bad=bad, descs=descs, n=n)
+
+
+def compare_slots(c, ver, shape, k):
+    bad = []
+    if True:
         s = c.suite
         if ver != R.TLS13:
             kb = c.kb
@@ -62,7 +89,7 @@ def _tls(job):
                 bad.append(f"slot {slot} is not installed")
             elif bytes.fromhex(got)[:len(val)] != val or (slot.endswith("key") or slot.endswith("mac")) and len(bytes.fromhex(got)) != len(val):
                 bad.append(f"slot {slot}: installed {got[:24]}.. ({len(got) // 2} bytes), RFC key schedule gives {val.hex()[:24]}.. ({len(val)} bytes)")
-    return dict(ver=ver, code=code, bad=bad, name=c.suite.name, nokeys=False)
+    return bad
 
 
 def _quic(job):
@@ -152,6 +179,32 @@ def run(chk):
         for b in res["bad"]:
             chk.violation(f"{R.VNAME[res['ver']]} {res['name']}: {b}", dict(ver=res["ver"], suite=res["code"], why=b))
     chk.extra["version_suite_pairs"] = len(covered)
+    # several connections per capture: complete and partial TLS 1.3 key logs, full and abbreviated <= 1.2 handshakes next to each other
+    mj = []
+    for _ in range(40 if quick else 600):
+        ds = []
+        for _k in range(rng.randint(2, 4)):
+            ver, code, seed, sh = rng.choice(jobs)
+            ds.append((ver, code, rng.randrange(1 << 30), sh))
+        mj.append(ds)
+    # TLS 1.3 connections with complete and partial key logs in every order (a missing label falls back to the application secret of
+    # THE SAME connection, never to anything left over from another one)
+    j13 = [j for j in jobs if j[0] == R.TLS13]
+    for _ in range(30 if quick else 400):
+        ds = []
+        for _k in range(rng.randint(2, 4)):
+            ver, code, seed, sh = rng.choice(j13)
+            ds.append((ver, code, rng.randrange(1 << 30), dict(hs_in_log=rng.random() < 0.5)))
+        mj.append(ds)
+    nm = 0
+    for res in pool_map(_tls_multi, mj):
+        if "machinery" in res:
+            raise Exception("harness: " + res["machinery"])
+        chk.evaluations += 1
+        nm += res["n"]
+        for b in res["bad"]:
+            chk.violation(b, dict(connections=[[v, c_, sd, sh] for v, c_, sd, sh in res["descs"]], why=b))
+    chk.extra["connections_checked_inside_multi_connection_captures"] = nm
     # QUIC
     ku = dict(SuiteSet='{"1301","1302","1303","1304"}', OfferFirst='{"same","other","grease"}', Splits='{<<1>>}', Retries="BOOLEAN", ZeroRtts="{FALSE}", MaxApp="5", MaxGen="3")
     behs = c02.gen(chk, ku, 20 if quick else 300, chk.seed)
